@@ -564,7 +564,7 @@ func TestVerif_C23(t *testing.T) {
 	})
 
 	// ---------------------------------------------------------------- T
-	nb := 40
+	nb := 80
 	if !vQuick() {
 		nb = 400
 	}
